@@ -484,6 +484,10 @@ Section Sim.
      right-hand sides; ternaries with plain `=`), single-variable declarations with initialiser, scope ends, empty
      statements, conditional, counting and unconditional jumps to user labels, labels, interrupts, instruction calls
      with jump-free arguments (complex ones go through temporaries) *)
+  (* a declared variable with a jump-free initialiser *)
+  Definition wfvar (n0 : nat) (x : nat * option expr) : Prop :=
+    (fst x < n0)%nat /\ exists e, snd x = Some e /\ locals_below n0 e = true /\ wt_pure [] e = true.
+
   Definition wf_stmt (n0 : nat) (st : sstmt) : Prop :=
     match st with
     | SAssign v aop e =>
@@ -498,8 +502,9 @@ Section Sim.
     | SNop => True
     | SScopeEnd d => (d < n0)%nat
     | SDecl ty vars =>
-        exists d e, vars = [(d, Some e)] /\ (d < n0)%nat /\ locals_below n0 e = true /\
-                    (wt_pure [] e = true \/ wt_tern [] e = true)
+        (exists d e, vars = [(d, Some e)] /\ (d < n0)%nat /\ locals_below n0 e = true /\
+                     (wt_pure [] e = true \/ wt_tern [] e = true))
+        \/ (vars <> [] /\ Forall (wfvar n0) vars)
     end.
 
   Lemma mapM_ext {A B} (f h : A -> outcome B) l : (forall x, In x l -> f x = h x) -> mapM f l = mapM h l.
@@ -530,6 +535,134 @@ Section Sim.
   Lemma te_agree_refl_ n te : te_agree n te te.
   Proof. intros d _. reflexivity. Qed.
 
+  (* ---- declarations of several variables ---- *)
+  Definition lower_decl (t mask : Z) (fuel : nat) (ty0 : ty) : list (nat * option expr) -> lst -> res :=
+    fix go (vs : list (nat * option expr)) (s : lst) : res :=
+    match vs with
+    | [] => ret [] s
+    | (d, init) :: rest =>
+        seq (ret [LAlloc d ty0] s) (fun s1 =>
+        seq (match init with
+             | Some e => lower t mask fuel (CAssignOp (mkvar None (VLoc d)) None e) s1
+             | None => ret [] s1
+             end) (go rest))
+    end.
+  Lemma lower_decl_cons t mask fuel ty0 d init rest s :
+    lower_decl t mask fuel ty0 ((d, init) :: rest) s =
+    seq (ret [LAlloc d ty0] s) (fun s1 =>
+    seq (match init with
+         | Some e => lower t mask fuel (CAssignOp (mkvar None (VLoc d)) None e) s1
+         | None => ret [] s1
+         end) (lower_decl t mask fuel ty0 rest)).
+  Proof. reflexivity. Qed.
+  Lemma lower_stmt_decl t mask fuel ty0 vars s : lower_stmt t mask fuel (SDecl ty0 vars) s = lower_decl t mask fuel ty0 vars s.
+  Proof. reflexivity. Qed.
+
+  Definition sdecl (ty0 : ty) : list (nat * option expr) -> mem -> outcome (mem * option (label * option Z) * option (Z * list value)) :=
+    fix go (vs : list (nat * option expr)) (m : mem) : outcome (mem * option (label * option Z) * option (Z * list value)) :=
+    match vs with
+    | [] => Ok (m, None, None)
+    | (d, init) :: rest =>
+        let m1 := update m (VLoc d) (default_of ty0) in
+        match init with
+        | Some e => do m2 <- assign_e m1 (mkvar None (VLoc d)) None e; go rest m2
+        | None => go rest m1
+        end
+    end.
+  Lemma sdecl_cons ty0 d init rest m :
+    sdecl ty0 ((d, init) :: rest) m =
+    (let m1 := update m (VLoc d) (default_of ty0) in
+     match init with
+     | Some e => do m2 <- assign_e m1 (mkvar None (VLoc d)) None e; sdecl ty0 rest m2
+     | None => sdecl ty0 rest m1
+     end).
+  Proof. reflexivity. Qed.
+  Lemma sstep_decl ty0 vars m : sstep (SDecl ty0 vars) m = sdecl ty0 vars m.
+  Proof. reflexivity. Qed.
+
+  Lemma nonan_tb_pure te m e : wt_pure te e = true -> nonan_tb T libm rty lty diff m e = true.
+  Proof. destruct e; cbn; try reflexivity. discriminate. Qed.
+
+  Lemma decl_list_static n0 t mask fuel ty0 : forall vars s c1 s1,
+    lower_decl t mask fuel ty0 vars s = Ok (c1, s1) -> Forall (wfvar n0) vars -> (n0 <= g s)%nat ->
+    (g s <= g s1)%nat /\ te_agree (g s) (te s) (te s1) /\ Forall (at_time t mask) c1 /\ labels_in (g s) (g s1) c1 /\
+    (vars <> [] -> touches c1) /\
+    (forall m, fresh m (g s) -> seek_mem lty c1 m = fold_left (fun m x => update m (VLoc (fst x)) (default_of ty0)) vars m).
+  Proof.
+    induction vars as [|[d init] rest IH]; intros s c1 s1 Hl Hwf Hn.
+    - cbn in Hl. unfold ret in Hl. inversion Hl; subst. split; [lia|]. split; [apply te_agree_refl_|]. split; [constructor|].
+      split; [constructor|]. split; [intros H; contradiction|]. intros; reflexivity.
+    - pose proof (Forall_inv Hwf) as [Hd [e [Hi [Hb Hw]]]]. cbn [fst snd] in Hd, Hi. subst init.
+      rewrite lower_decl_cons in Hl. unfold seq, ret in Hl.
+      destruct (lower t mask fuel (CAssignOp (mkvar None (VLoc d)) None e) s) as [[ca sa]| | |] eqn:Ela; try discriminate.
+      destruct (lower_decl t mask fuel ty0 rest sa) as [[cr sr]| | |] eqn:Elr; try discriminate.
+      inversion Hl; subst c1 s1. clear Hl.
+      destruct (lower_shape avail auto_casts rty lty t mask fuel _ s ca sa Ela) as [G1 [L1 [N1 A1]]].
+      destruct (IH sa cr sr Elr (Forall_inv_tail Hwf) ltac:(lia)) as [G2 [A2 [T2 [L2 [_ N2]]]]].
+      split; [lia|].
+      split; [intros d' Hd'; rewrite (A2 d') by lia; apply A1; exact Hd'|].
+      split; [constructor; [exact I|]; apply Forall_app; split; [eapply lower_times; exact Ela | exact T2]|].
+      split; [constructor; [exact I|]; apply labels_in_app;
+              [eapply Forall_impl; [|exact L1]; intros x Hx; destruct x; cbn in *; auto; destruct l; [auto|lia]
+              |eapply Forall_impl; [|exact L2]; intros x Hx; destruct x; cbn in *; auto; destruct l; [auto|lia]]|].
+      split; [intros _; apply (touches_app_r [LAlloc d ty0]); apply touches_app_l; eapply lower_touches; exact Ela|].
+      intros m Hm. cbn [app LowerShape.seek_mem fold_left fst]. rewrite seek_mem_app.
+      assert (Hm1 : fresh (update m (VLoc d) (default_of ty0)) (g s)) by (apply fresh_upd; [exact Hm | lia]).
+      rewrite (N1 _ Hm1). apply N2. eapply fresh_mono; eassumption.
+  Qed.
+
+  Lemma decl_list_sim n0 t mask fuel ty0 : runs dsel mask = true -> forall vars s c1 s1 st r,
+    lower_decl t mask fuel ty0 vars s = Ok (c1, s1) -> Forall (wfvar n0) vars -> (n0 <= g s)%nat -> te_agree n0 [] (te s) ->
+    fresh (p_mem st) (g s) -> p_time st = t -> sdecl ty0 vars (p_mem st) = Ok r ->
+    (forall cmp, exists c', wblk c1 Exec st cmp = Ok (Exec, set_mem st (fst (fst r)), c')) /\
+    snd (fst r) = None /\ snd r = None /\ fresh (fst (fst r)) (g s1).
+  Proof.
+    intros Hr. induction vars as [|[d init] rest IH]; intros s c1 s1 st r Hl Hwf Hn Ha Hfr Hst Hs.
+    - cbn in Hl, Hs. unfold ret in Hl. inversion Hl; subst. inversion Hs; subst. cbn [fst snd].
+      split; [|auto]. intros cmp. exists cmp. cbn. rewrite set_mem_id. reflexivity.
+    - pose proof (Forall_inv Hwf) as [Hd [e [Hi [Hb Hw]]]]. cbn [fst snd] in Hd, Hi. subst init.
+      rewrite lower_decl_cons in Hl. unfold seq, ret in Hl.
+      destruct (lower t mask fuel (CAssignOp (mkvar None (VLoc d)) None e) s) as [[ca sa]| | |] eqn:Ela; try discriminate.
+      destruct (lower_decl t mask fuel ty0 rest sa) as [[cr sr]| | |] eqn:Elr; try discriminate.
+      inversion Hl; subst c1 s1. clear Hl.
+      rewrite sdecl_cons in Hs. cbv zeta in Hs. set (m1 := update (p_mem st) (VLoc d) (default_of ty0)) in *.
+      destruct (assign_e m1 (mkvar None (VLoc d)) None e) as [m2| | |] eqn:Ea; cbn [obind] in Hs; try discriminate.
+      set (st1 := set_mem st m1).
+      assert (Hw' : wt_pure [] e = true \/ (@None binop = None /\ wt_tern [] e = true)) by (left; exact Hw).
+      destruct (sim_assign n0 t mask fuel (mkvar None (VLoc d)) None e s ca sa st1 m2 Hr Ela Hn Ha Hd Hb Hw') as [Hrun [Hg [Ht Hf2]]].
+      + apply (nonan_tb_pure [] _ e Hw).
+      + unfold st1. cbn [p_mem set_mem]. apply fresh_upd; [exact Hfr | lia].
+      + unfold st1. cbn [p_time set_mem]. lia.
+      + rewrite wait_mem. exact Ea.
+      + assert (Ha' : te_agree n0 [] (te sa)) by (intros d' Hd'; rewrite (Ht d') by lia; apply Ha; exact Hd').
+        destruct (IH sa cr sr (set_mem st m2) r Elr (Forall_inv_tail Hwf) ltac:(lia) Ha' Hf2 Hst Hs) as [Hrest [Hj [Hlg Hf3]]].
+        split; [|auto].
+        intros cmp. cbn [app LowerProg.wblk]. fold m1. fold st1. rewrite wblk_app.
+        destruct (Hrun cmp) as [c' E]. rewrite E. rewrite (wait_at t st1 Hst). unfold st1. rewrite set_mem_set_mem.
+        destruct (Hrest c') as [c'' E2]. exists c''. rewrite E2. rewrite set_mem_set_mem. reflexivity.
+  Qed.
+
+
+  Lemma sdecl_fresh n0 ty0 : forall vars m r, Forall (wfvar n0) vars -> fresh m n0 -> sdecl ty0 vars m = Ok r ->
+    fresh (fst (fst r)) n0 /\ snd (fst r) = None /\ snd r = None.
+  Proof.
+    induction vars as [|[d init] rest IH]; intros m r Hwf Hfr Hs.
+    - cbn in Hs. inversion Hs; subst. auto.
+    - pose proof (Forall_inv Hwf) as [Hd [e [Hi _]]]. cbn [fst snd] in Hd, Hi. subst init.
+      rewrite sdecl_cons in Hs. cbv zeta in Hs.
+      destruct (assign_e (update m (VLoc d) (default_of ty0)) (mkvar None (VLoc d)) None e) as [m2| | |] eqn:Ea; cbn [obind] in Hs; try discriminate.
+      destruct (assign_s_shape T libm rty lty diff [] (update m (VLoc d) (default_of ty0)) (mkvar None (VLoc d)) None e m2 Ea) as [v ->].
+      cbn [v_id] in Hs. apply (IH (update (update m (VLoc d) (default_of ty0)) (VLoc d) v) r (Forall_inv_tail Hwf)); [|exact Hs].
+      apply fresh_upd; [apply fresh_upd; assumption | exact Hd].
+  Qed.
+
+  Lemma fold_reset_fresh n0 ty0 : forall (vars : list (nat * option expr)) m, Forall (wfvar n0) vars -> fresh m n0 ->
+    fresh (fold_left (fun m x => update m (VLoc (fst x)) (default_of ty0)) vars m) n0.
+  Proof.
+    induction vars as [|x rest IH]; intros m Hwf Hfr; [exact Hfr|]. cbn [fold_left].
+    apply IH; [exact (Forall_inv_tail Hwf)|]. apply fresh_upd; [exact Hfr|]. exact (proj1 (Forall_inv Hwf)).
+  Qed.
+
   Lemma stmt_sim n0 t mask fuel stmt s c1 s1 st m' j lg :
     runs dsel mask = true ->
     lower_stmt t mask fuel stmt s = Ok (c1, s1) -> wf_stmt n0 stmt ->
@@ -549,7 +682,17 @@ Section Sim.
       inversion Hs; subst m' j lg. cbn [mode_of logged].
       eapply sim_assign; eassumption.
     - (* SDecl *)
-      destruct Hwf as [d [e [-> [Hd [Hb Hw]]]]]. cbn [LowerProg.sstep LowerProg.stmt_nonan] in Hs, Hnn. cbn [Lower.lower_stmt] in Hl.
+      destruct Hwf as [[d [e [-> [Hd [Hb Hw]]]]] | [Hne Hall]];
+        [|(* several variables with jump-free initialisers *)
+          change (lower_decl t mask fuel ty0 vars s = Ok (c1, s1)) in Hl;
+          change (sdecl ty0 vars (p_mem (wait t st)) = Ok (m', j, lg)) in Hs;
+          destruct (decl_list_static n0 t mask fuel ty0 vars s c1 s1 Hl Hall Hn) as [G [A [Hat [_ [Hx _]]]]];
+          assert (Hfr1 : fresh (p_mem (wait t st)) (g s)) by (rewrite wait_mem; exact Hfr);
+          destruct (decl_list_sim n0 t mask fuel ty0 Hr vars s c1 s1 (wait t st) (m', j, lg) Hl Hall Hn Ha Hfr1 (wait_time t st Hle) Hs) as [Hrun [Hj [Hlg Hf]]];
+          cbn [fst snd] in Hrun, Hj, Hlg, Hf; subst j lg; cbn [mode_of logged];
+          (split; [|split; [exact G|split; [exact A|exact Hf]]]);
+          intros cmp; rewrite (wblk_entry T libm lty dsel t mask c1 st cmp Hat (Hx Hne)); apply Hrun].
+      cbn [LowerProg.sstep LowerProg.stmt_nonan] in Hs, Hnn. cbn [Lower.lower_stmt] in Hl.
       rewrite wait_mem in Hs, Hnn.
       set (m1 := update (p_mem st) (VLoc d) (default_of ty0)) in *.
       destruct (assign_e m1 (mkvar None (VLoc d)) None e) as [m2| | |] eqn:Ea; cbn [obind] in Hs; try discriminate.
@@ -652,7 +795,9 @@ Section Sim.
     - destruct Hwf as [Hv _]. destruct (assign_e m v aop e) as [m1| | |] eqn:Ea; cbn [obind] in Hs; try discriminate.
       inversion Hs; subst. destruct (assign_s_shape T libm rty lty diff [] m v aop e m' Ea) as [r ->].
       apply fresh_upd_var; assumption.
-    - destruct Hwf as [d [e [-> [Hd _]]]]. cbn [LowerProg.sstep] in Hs.
+    - destruct Hwf as [[d [e [-> [Hd _]]]] | [_ Hall]];
+        [|change (sdecl ty0 vars m = Ok (m', j, lg)) in Hs; exact (proj1 (sdecl_fresh n0 ty0 vars m (m', j, lg) Hall Hfr Hs))].
+      cbn [LowerProg.sstep] in Hs.
       destruct (assign_e (update m (VLoc d) (default_of ty0)) (mkvar None (VLoc d)) None e) as [m2| | |] eqn:Ea; cbn [obind] in Hs; try discriminate.
       inversion Hs; subst. destruct (assign_s_shape T libm rty lty diff [] (update m (VLoc d) (default_of ty0)) (mkvar None (VLoc d)) None e m' Ea) as [r ->].
       cbn [v_id]. apply fresh_upd; [apply fresh_upd; assumption | exact Hd].
@@ -681,8 +826,16 @@ Section Sim.
     destruct stmt as [v aop e|ty0 vars|k c l0 jt0|l0 jt0|l0|opc args|d|e|]; cbn [wf_stmt] in Hwf; try contradiction;
       cbn [LowerProg.sstep] in Hs.
     - destruct (assign_e m v aop e); cbn [obind] in Hs; discriminate.
-    - destruct Hwf as [d [e [-> _]]]. cbn [LowerProg.sstep] in Hs.
-      destruct (assign_e _ _ None e); cbn [obind] in Hs; discriminate.
+    - destruct Hwf as [[d [e [-> _]]] | [_ Hall]].
+      + cbn [LowerProg.sstep] in Hs. destruct (assign_e _ _ None e); cbn [obind] in Hs; discriminate.
+      + change (sdecl ty0 vars m = Ok (m', Some (l, jt), lg)) in Hs.
+        assert (Hx : forall mm (r : mem * option (label * option Z) * option (Z * list value)) (vs : list (nat * option expr)),
+                  Forall (wfvar n0) vs -> sdecl ty0 vs mm = Ok r -> snd (fst r) = None).
+        { intros mm r vs. revert mm. induction vs as [|[d init] rest IH]; intros mm Hw Hs0.
+          - cbn in Hs0. inversion Hs0; reflexivity.
+          - pose proof (Forall_inv Hw) as [_ [e [Hi _]]]. cbn [snd] in Hi. subst init. rewrite sdecl_cons in Hs0. cbv zeta in Hs0.
+            destruct (assign_e _ _ None e); cbn [obind] in Hs0; try discriminate. eapply IH; [exact (Forall_inv_tail Hw) | exact Hs0]. }
+        pose proof (Hx m _ vars Hall Hs) as Hn0. cbn in Hn0. discriminate.
     - assert (Hc : forall v op r, count_e T libm rty lty diff m k v op l0 jt0 = Ok r -> snd r = Some (l, jt) -> l = l0).
       { intros v op r Hr Hj. unfold LowerProg.count_e in Hr. destruct (eval_e m (var_expr v)) as [x| | |]; cbn [obind] in Hr; try discriminate.
         destruct x; try discriminate. inversion Hr; subst. cbn [snd] in Hj. destruct (xorb _ _); inversion Hj. reflexivity. }
@@ -728,7 +881,11 @@ Section Sim.
     destruct stmt as [v aop e|ty0 vars|k c l jt|l jt|l|opc args|d|e|]; cbn [wf_stmt] in Hwf; try contradiction;
       cbn [Lower.lower_stmt] in Hl; cbn [LowerProg.sseek is_silent].
     - destruct (Hlow _ _ _ Hl) as [G [A [N [Ht [Hx L]]]]]. auto 8.
-    - destruct Hwf as [d [e [-> [Hd _]]]]. cbn [Lower.lower_stmt] in Hl. unfold seq, ret in Hl.
+    - destruct Hwf as [[d [e [-> [Hd _]]]] | [Hne Hall]];
+        [|change (lower_decl t mask fuel ty0 vars s = Ok (c1, s1)) in Hl;
+          destruct (decl_list_static n0 t mask fuel ty0 vars s c1 s1 Hl Hall Hn) as [G [A [Hat [L [Hx N]]]]];
+          (split; [exact G|]); (split; [exact A|]); (split; [exact N|]); (split; [exact Hat|]); (split; [intros _; exact (Hx Hne) | exact L])].
+      cbn [Lower.lower_stmt] in Hl. unfold seq, ret in Hl.
       destruct (lower t mask fuel (CAssignOp (mkvar None (VLoc d)) None e) s) as [[ca sa]| | |] eqn:Ela; try discriminate.
       inversion Hl; subst c1 s1. destruct (Hlow _ _ _ Ela) as [G [A [N [Ht [Hx L]]]]]. rewrite app_nil_r.
       split; [exact G|]. split; [exact A|].
@@ -784,7 +941,9 @@ Section Sim.
   Lemma sseek_fresh n0 stmt m : wf_stmt n0 stmt -> fresh m n0 -> fresh (sseek stmt m) n0.
   Proof.
     intros Hwf Hfr. destruct stmt; cbn [wf_stmt] in Hwf; try contradiction; cbn [LowerProg.sseek]; try exact Hfr.
-    - destruct Hwf as [d [e [-> [Hd _]]]]. cbn [fold_left fst]. apply fresh_upd; assumption.
+    - destruct Hwf as [[d [e [-> [Hd _]]]] | [_ Hall]].
+      + cbn [fold_left fst]. apply fresh_upd; assumption.
+      + apply fold_reset_fresh; assumption.
     - apply fresh_upd; assumption.
   Qed.
 
